@@ -28,6 +28,28 @@ UntypedVals == {
    Obj(<<"n", "u1">>, <<N(4), N(8)>>), Obj(<<"n", "u1">>, <<N(4), St(<<"x">>)>>),
    Obj(<<"n", "u3">>, <<N(4), St(<<"a">>)>>), Obj(<<"n", "u3">>, <<N(4), St(<<"z">>)>>) }
 TextVals == {St(<<"a">>), St(<<"a", "b", "c">>)}
+(* text bodies against the text schemas T1..T7 (most of them without a "type" keyword); "42" is a string too *)
+TextVals2 == {St(<<"a">>), St(<<"a", "b">>), St(<<"a", "b", "c">>), St(<<"b">>), St(<<"4", "2">>)}
+TextSchemas2 == {"T1", "T2", "T3", "T4", "T5", "T6", "T7"}
+IsDigits(v) == v.cs # <<>> /\ \A i \in DOMAIN v.cs : v.cs[i] \in {"0", "1", "2", "3", "4", "5", "6", "7", "8", "9"}
+(* multipart bodies whose parts go through the plain-text decoder against a property WITHOUT a type of its own (u3, a bare   *)
+(* enum); no number next to it (multipart text parts are not typed: F-C06-2 would mask the verdict)                          *)
+MultiUntypedVals == { Obj(<<"s", "u3">>, <<St(<<"a">>), St(<<"a">>)>>), Obj(<<"s", "u3">>, <<St(<<"a">>), St(<<"z">>)>>), Obj(<<"u3">>, <<St(<<"b">>)>>) }
+(* bodies for the wrapped schemas (S1 / S2 / S7 inside compositions, below items / a property) *)
+WrapVals == {
+   Obj(<<"n", "s">>, <<N(4), St(<<"a">>)>>),
+   Obj(<<"n", "ro">>, <<N(4), St(<<"v">>)>>),             \* read-only property sent
+   Obj(<<"n", "ro", "wo">>, <<N(4), St(<<"v">>), St(<<"w">>)>>),
+   Obj(<<"n", "wo">>, <<N(4), St(<<"w">>)>>),             \* write-only property sent: an ordinary property of a request
+   Obj(<<"n">>, <<N(4)>>),
+   Obj(<<"n">>, <<St(<<"x">>)>>),                         \* n is not an integer
+   Obj(<<"s">>, <<St(<<"a">>)>>),
+   \* ... and without a number (multipart text parts are not typed: F-C06-2)
+   Obj(<<"ro", "s">>, <<St(<<"v">>), St(<<"a">>)>>), Obj(<<"ro", "wo">>, <<St(<<"v">>), St(<<"w">>)>>), Obj(<<"wo">>, <<St(<<"w">>)>>) }
+Wraps == {"anyOf", "anyOf2", "oneOf", "allOf", "allOfT", "allOfAnyOf", "items", "itemsAnyOf", "prop", "propAnyOf"}
+WrapVal(v, w) == CASE w \in {"items", "itemsAnyOf"} -> Arr(<<v>>)
+                   [] w \in {"prop", "propAnyOf"} -> Obj(<<"in">>, <<v>>)
+                   [] OTHER -> v
 (* bodies for S4 / S4a (every field text has exactly one reading that can satisfy an alternative, or none) *)
 AltVals == { Obj(<<"by", "ref">>, <<St(<<"n", "a", "m", "e">>), St(<<"a", "b">>)>>),      \* satisfies the string alternative only
              Obj(<<"by", "ref">>, <<St(<<"i", "d">>), N(28)>>),                          \* satisfies the integer alternative
@@ -70,6 +92,25 @@ Init ==
                 setDefaults |-> FALSE, bodyRequired |-> req]
    \/ \E v \in TextVals :
         case = [part |-> "decode", family |-> "text", schema |-> "text", v |-> v, excludeRO |-> FALSE, enc |-> "default", clen |-> "known", setDefaults |-> FALSE]
+   \* text/plain bodies against schemas with and without a "type" keyword
+   \/ \E sc \in TextSchemas2, v \in TextVals2 :
+        /\ (sc = "T6" => ~IsDigits(v))                  \* left open: whether the text 42 is an integer for a text/plain body
+        /\ case = [part |-> "decode", family |-> "text", schema |-> sc, v |-> v, excludeRO |-> FALSE, enc |-> "default", clen |-> "known", setDefaults |-> FALSE]
+   \* multipart parts decoded as plain text (no part Content-Type, or text/plain spelled out) against typed and untyped properties
+   \/ \E sc \in {"S1", "S2"}, v \in MultiUntypedVals \cup {Obj(<<"s">>, <<St(<<"a">>)>>), Obj(<<"ls", "s">>, <<Arr(<<St(<<"a">>)>>), St(<<"b">>)>>)},
+         pct \in {"none", "text"}, xro \in BOOLEAN :
+        /\ (pct = "none" => v \in MultiUntypedVals)      \* (the typed bodies without a part Content-Type are in the first group)
+        /\ case = [part |-> "decode", family |-> "multipart", schema |-> sc, v |-> v, excludeRO |-> xro, enc |-> "default", clen |-> "known",
+                   setDefaults |-> FALSE, partCT |-> pct]
+   \* the object schema inside a composition / below items / below a property, x the read-only exclusion option
+   \/ \E fam \in {"json", "form", "multipart"}, sc \in {"S1", "S2", "S7"}, w \in Wraps \cup {"plain"}, v \in WrapVals, xro \in BOOLEAN :
+        /\ (fam # "json" => w = "allOfT")               \* form / multipart decoders look for properties in the schema itself and in allOf members only (F-C06-6)
+        /\ (fam = "multipart" => ~HasNum(v))            \* multipart text parts are not typed (F-C06-2)
+        /\ (w = "plain" => sc = "S7")                   \* (S1 / S2 unwrapped are the first group)
+        /\ (HasKey(v, "wo") => sc = "S7")
+        /\ (HasKey(v, "s") => sc # "S7")                \* S7 does not declare s: an undeclared field of a form body has no declared shape to decode by (left open)
+        /\ case = [part |-> "decode", family |-> fam, schema |-> sc, wrap |-> w, v |-> WrapVal(v, w), excludeRO |-> xro, enc |-> "default", clen |-> "known",
+                   setDefaults |-> FALSE]
 Next == UNCHANGED case
 Spec == Init /\ [][Next]_case
 (* the decode cases carry the abstract schema: the realiser builds the document from it *)
@@ -82,4 +123,17 @@ SelectLaws ==
       /\ (h \notin d /\ Strip(h) \in d => Select(d, h) = Strip(h))
       /\ (Select(d, h) = AnyWild => h \notin d /\ Strip(h) \notin d /\ MT(h.ty, "*", "") \notin d)
 ASSUME SelectLaws
+
+(* D: the request-side reading is compositional -- an object schema judges a body the same way wherever it sits: as the  *)
+(* only object alternative of a composition, below items, below a property; with and without the read-only exclusion.   *)
+WrapLaws ==
+   \A sc \in {S1, S2, S7}, w \in Wraps \ {"anyOf2"}, v \in WrapVals, side \in {"asreq", "asreq_noro", "plain"} :
+      Valid(Wrap(sc, w), WrapVal(v, w), side) = Valid(sc, v, side)
+(* ... and the exclusion option only ever admits more: it changes the verdict exactly for bodies that carry a read-only property *)
+ExclusionLaws ==
+   \A sc \in {S1, S2, S7}, w \in Wraps \cup {"plain"}, v \in WrapVals :
+      /\ (Valid(Wrap(sc, w), WrapVal(v, w), "asreq") => Valid(Wrap(sc, w), WrapVal(v, w), "asreq_noro"))
+      /\ (~HasKey(v, "ro") => (Valid(Wrap(sc, w), WrapVal(v, w), "asreq") = Valid(Wrap(sc, w), WrapVal(v, w), "asreq_noro")))
+ASSUME WrapLaws
+ASSUME ExclusionLaws
 =============================================================================
